@@ -188,6 +188,8 @@ class SearchKey(Parseable[bytes]):
             pass
         else:
             key_set = key_list_p.get_as(SearchKey)
+            if not key_set:
+                raise NotParseable(buf)
             return cls(b'KEYSET', key_set, inverse), buf
         atom, after = Atom.parse(buf, params)
         key = atom.value.upper()
